@@ -5,9 +5,15 @@ import (
 	"runtime/debug"
 	"strings"
 
+	"google.golang.org/protobuf/proto"
+
+	"github.com/yorkie-team/yorkie/api/converter"
+	api "github.com/yorkie-team/yorkie/api/yorkie/v1"
 	"github.com/yorkie-team/yorkie/pkg/document"
+	"github.com/yorkie-team/yorkie/pkg/document/change"
 	"github.com/yorkie-team/yorkie/pkg/document/json"
 	"github.com/yorkie-team/yorkie/pkg/document/presence"
+	"github.com/yorkie-team/yorkie/pkg/document/time"
 	"github.com/yorkie-team/yorkie/pkg/document/yson"
 
 	"verifharness/kit"
@@ -73,6 +79,46 @@ func exportYSON(d *document.Document) (yson.Object, *kit.Failure) {
 	return out, nil
 }
 
+var peerActor = func() time.ActorID {
+	a, err := time.ActorIDFromHex("0000000000000000000000c1")
+	if err != nil {
+		panic(err)
+	}
+	return a
+}()
+
+// replayStored encodes the pending changes of d as the server stores and
+// sends them (converter + protobuf) and applies them to an empty replica of
+// another actor.
+func replayStored(d *document.Document) (*document.Document, *kit.Failure) {
+	pack := d.CreateChangePack()
+	pb, err := converter.ToChangePack(pack)
+	if err != nil {
+		return nil, kit.Failf("STORED-CHANGE-ERROR", "the change of the rebuilt document does not encode: %v", err)
+	}
+	raw, err := proto.Marshal(pb)
+	if err != nil {
+		return nil, kit.Failf("STORED-CHANGE-ERROR", "the change of the rebuilt document does not marshal: %v", err)
+	}
+	var pb2 api.ChangePack
+	if err := proto.Unmarshal(raw, &pb2); err != nil {
+		return nil, kit.Failf("STORED-CHANGE-ERROR", "the change of the rebuilt document does not unmarshal: %v", err)
+	}
+	dec, err := converter.FromChangePack(&pb2)
+	if err != nil {
+		return nil, kit.Failf("STORED-CHANGE-ERROR", "the change of the rebuilt document does not decode: %v", err)
+	}
+	third := document.New("c18")
+	third.SetActor(peerActor)
+	err, _ = guarded(func() error {
+		return third.ApplyChangePack(change.NewPack(pack.DocumentKey, change.NewCheckpoint(0, 0), dec.Changes, time.InitialVersionVector, nil))
+	})
+	if err != nil {
+		return nil, kit.Failf("STORED-CHANGE-ERROR", "the encoded change of the rebuilt document does not apply to an empty replica: %v", err)
+	}
+	return third, nil
+}
+
 func clip(s string) string {
 	if len(s) > 600 {
 		return s[:600] + "…"
@@ -86,6 +132,10 @@ func clip(s string) string {
 //	    FromCRDT(newDoc) == root (deep, type-exact), the two YSON texts are
 //	    equal (the comparison packs.Compact makes) and the documents marshal
 //	    equally;
+//	(1b) the change of newDoc, encoded as the server stores/sends it and
+//	    applied to an empty replica, gives the same content again (this is what
+//	    is left of the document after packs.Compact, and what clients receive
+//	    after revisions.Restore);
 //	(2) yson.Unmarshal(root.Marshal()) == root (what revisions.Restore parses),
 //	    unless the value contains the trigger of a listed finding of Unmarshal.
 //
@@ -122,6 +172,28 @@ func checkDoc(d *document.Document, ev map[string]int) (yson.Object, *shape, *ki
 		return root, sh, kit.Failf("DOC-MARSHAL-DIFF", "document JSON differs after the rebuild:\nprev: %s\n new: %s", clip(a), clip(b))
 	}
 	ev["structural_checked"]++
+
+	// (1b) what compaction stores and what a restore pushes is the change of
+	// the rebuilt document: encoded as the server stores and sends it, and
+	// applied to an empty replica, it must reproduce the content as well.
+	if sh.sub["counter_dedup_nonempty"] && !kit.NoExclusions() {
+		// N6: the Set/Add operation of a counter carries no HLL registers
+		ev["excluded:N6-dedup-wire"] = 1
+	} else {
+		third, fail := replayStored(newDoc)
+		if fail != nil {
+			return root, sh, fail
+		}
+		thirdRoot, fail := exportYSON(third)
+		if fail != nil {
+			return root, sh, fail
+		}
+		if diff := ysonDiff("$", root, thirdRoot); diff != "" {
+			return root, sh, kit.Failf("STORED-CHANGE-DIFF", "a replica that applies the encoded change of the rebuilt document (what "+
+				"compaction stores / restore pushes) differs from FromCRDT(d) at %s", diff)
+		}
+		ev["stored_change_checked"]++
+	}
 
 	// (2) textual round trip
 	if ex := sh.exclusionList(); len(ex) > 0 && !kit.NoExclusions() {
